@@ -15,6 +15,7 @@ type Style struct {
 	NoFinalN     bool  `json:"no_final_newline"`
 	LeadingZeros bool  `json:"leading_zeros"` // literals may be written with leading zeros
 	pos          int
+	longUsed     int
 }
 
 func (s *Style) pick(n int) int {
@@ -57,7 +58,10 @@ func (s *Style) comment() string {
 	c := harmlessComments[s.pick(len(harmlessComments))]
 	if s.pick(40) == 7 {
 		n := []int{4090, 5000, 9000, 70000}[s.pick(4)]
-		c = "; " + strings.Repeat("long remark, ", n/13+1)[:n]
+		if s.longUsed < 2 { // at most two per rendering: replicated programs hold thousands of comments
+			s.longUsed++
+			c = "; " + strings.Repeat("long remark, ", n/13+1)[:n]
+		}
 	}
 	return c
 }
